@@ -104,6 +104,36 @@ Proof.
   eapply merges_preserve_view; eauto.
 Qed.
 
+(* Neither reading looks at attributes, so the seam-merge premise is only needed modulo the attributes of
+   start tags: a block may write its Outlook table with other attributes (or in another attribute order)
+   depending on its neighbours without affecting well-formedness. *)
+Definition strip_attrs (t : tok) : tok := match t with TOpen n _ s => TOpen n [] s | _ => t end.
+Lemma vstep_strip v st t : vstep v st (strip_attrs t) = vstep v st t.
+Proof. destruct t; reflexivity. Qed.
+Lemma view_strip v : forall ts st, view v st (map strip_attrs ts) = view v st ts.
+Proof.
+  induction ts as [|t r IH]; intros st; cbn [map view]; [reflexivity|].
+  rewrite vstep_strip. destruct (vstep v st t) as [[e st']|]; [|reflexivity]. rewrite IH. reflexivity.
+Qed.
+Lemma ok_frag_strip v ts : ok_frag v (map strip_attrs ts) <-> ok_frag v ts.
+Proof. unfold ok_frag. split; intros (es & Hv & Hw); exists es; (split; [|exact Hw]); [rewrite <- view_strip|rewrite view_strip]; exact Hv. Qed.
+Lemma strip_concat bs : map strip_attrs (List.concat bs) = List.concat (map (map strip_attrs) bs).
+Proof. induction bs as [|b r IH]; cbn; [reflexivity|]. rewrite map_app, IH. reflexivity. Qed.
+
+Theorem body_ok_modulo_attrs v bs ts : Forall (ok_frag v) bs ->
+  merges (map strip_attrs (List.concat bs)) (map strip_attrs ts) -> ok_frag v ts.
+Proof.
+  intros Hb Hm. apply ok_frag_strip. rewrite strip_concat in Hm.
+  apply (body_ok v (map (map strip_attrs) bs)); [|exact Hm].
+  apply Forall_forall. intros b Hin. apply in_map_iff in Hin. destruct Hin as (b0 & <- & Hin0).
+  apply ok_frag_strip. rewrite Forall_forall in Hb. auto.
+Qed.
+Theorem merges_preserve_view_modulo_attrs v ts ts' : merges (map strip_attrs ts) (map strip_attrs ts') ->
+  forall st r, view v st ts = Some r -> view v st ts' = Some r.
+Proof.
+  intros Hm st r Hv. rewrite <- view_strip. eapply merges_preserve_view; [exact Hm|]. rewrite view_strip. exact Hv.
+Qed.
+
 (* a container: a frame a ++ b that is well-formed when its hole is empty, comment state Closed at
    the hole; filling the hole with a well-formed child fragment keeps it well-formed.  Applied
    repeatedly this covers every number of children and every nesting depth. *)
